@@ -277,6 +277,27 @@ def peopleOf (s : Id3) : Option (List (Text × Text)) :=
 
 def txxxEnc (l : List Text) : Nat := if l.any (fun v => v.any (fun c => decide (c > 127))) then 3 else 0
 
+/-- `performer_get` for the role `r` -/
+def perfRead (s : Id3) (r : Text) : Except PyErr PVal :=
+  match lookup kTMCL s with
+  | none => .error .key
+  | some (.tmcl _ people) =>
+    match (people.filter (fun p => p.1 == r)).map Prod.snd with
+    | [] => .error .key
+    | l => .ok (textsVal l)
+  | some _ => .error .notImplemented
+
+/-- `performer_delete` for the role `r` -/
+def perfDel (s : Id3) (r : Text) : Except PyErr Id3 :=
+  match lookup kTMCL s with
+  | none => .error .key
+  | some (.tmcl enc people) =>
+    let rest := people.filter (fun p => p.1 != r)
+    if rest == people then .error .key
+    else if rest.isEmpty then .ok (erase kTMCL s)
+    else .ok (insert kTMCL (.tmcl enc rest) s)
+  | some _ => .error .notImplemented
+
 def woarUrl : IFrame → Option Text
   | .woar u => some u
   | _ => none
@@ -304,14 +325,7 @@ def eiGet (s : Id3) (e : EIEntry) (kt : Text) : Except PyErr PVal :=
     | none => .error .key
     | some (.stamps _ l) => .ok (textsVal l)
     | some _ => .error .notImplemented
-  | .performer =>
-    match lookup kTMCL s with
-    | none => .error .key
-    | some (.tmcl _ people) =>
-      match (people.filter (fun p => p.1 == roleOf kt)).map Prod.snd with
-      | [] => .error .key
-      | l => .ok (textsVal l)
-    | some _ => .error .notImplemented
+  | .performer => perfRead s (roleOf kt)
   | .trackid =>
     match lookup kUFID s with
     | none => .error .key
@@ -344,6 +358,14 @@ def trackidFrame (items : List Item) : Except PyErr IFrame :=
 /-- `for frame in frames: id3.add(frame)` for WOAR frames made of the URLs `l` -/
 def woarPut (l : List Text) (base : Id3) : Id3 := l.foldl (fun acc u => insert (pWOAR ++ u) (.woar u) acc) base
 
+/-- `performer_set` for the role `r` and the names `l` -/
+def perfSet (s : Id3) (r : Text) (l : List Text) : Except PyErr Unit × Id3 :=
+  match lookup kTMCL s with
+  | none => (.ok (), insert kTMCL (.tmcl 3 (l.map (fun x => (r, x)))) s)
+  | some (.tmcl _ people) =>
+    (.ok (), insert kTMCL (.tmcl 3 (people.filter (fun p => p.1 != r) ++ l.map (fun x => (r, x)))) s)
+  | some _ => (.error .notImplemented, s)
+
 /-- result of a setter: the exception (if any) and the native tags afterwards — a setter that
 raises may already have added a frame -/
 abbrev SetRes := Except PyErr Unit × Id3
@@ -363,12 +385,7 @@ def eiSet (s : Id3) (e : EIEntry) (kt : Text) (v : PVal) : SetRes :=
       match l.mapM tsNorm with
       | some l' => (.ok (), insert fid (.stamps 3 l') s)
       | none => (.error .notImplemented, s)
-    | .performer, some l =>
-      match lookup kTMCL s with
-      | none => (.ok (), insert kTMCL (.tmcl 3 (l.map (fun x => (roleOf kt, x)))) s)
-      | some (.tmcl _ people) =>
-        (.ok (), insert kTMCL (.tmcl 3 (people.filter (fun p => p.1 != roleOf kt) ++ l.map (fun x => (roleOf kt, x)))) s)
-      | some _ => (.error .notImplemented, s)
+    | .performer, some l => perfSet s (roleOf kt) l
     | .trackid, _ =>
       match trackidFrame items with
       | .ok f => (.ok (), insert kUFID f s)
@@ -429,15 +446,7 @@ def eiDel (s : Id3) (e : EIEntry) (kt : Text) : Except PyErr Id3 :=
   | .genre => delKey kTCON
   | .date fid => delKey fid
   | .trackid => delKey kUFID
-  | .performer =>
-    match lookup kTMCL s with
-    | none => .error .key
-    | some (.tmcl enc people) =>
-      let rest := people.filter (fun p => p.1 != roleOf kt)
-      if rest == people then .error .key
-      else if rest.isEmpty then .ok (erase kTMCL s)
-      else .ok (insert kTMCL (.tmcl enc rest) s)
-    | some _ => .error .notImplemented
+  | .performer => perfDel s (roleOf kt)
   | .website =>
     match getallPrefix pWOAR s with
     | [] => .error .key
@@ -494,15 +503,18 @@ def gainKeys (s : Id3) : List Text :=
     | .rva2 d _ _ _ => [pReplaygain ++ d ++ sGain, pReplaygain ++ d ++ sPeak]
     | _ => [])).flatten
 
+/-- `key in self` for a key of `Get` without a lister: the key itself, unless the getter raises `KeyError` -/
+def eiKeyIfPresent (s : Id3) (e : EIEntry) : List Text :=
+  match easyId3Get s (.str e.key) with
+  | .error .key => []
+  | _ => [e.key]
+
 /-- what one key of `Get` contributes to `keys()` -/
 def eiKeysOf (s : Id3) (e : EIEntry) : List Text :=
   match e.kind with
   | .performer => performerKeys s
   | .gain => gainKeys s
-  | _ =>
-    match easyId3Get s (.str e.key) with
-    | .error .key => []
-    | _ => [e.key]
+  | _ => eiKeyIfPresent s e
 
 def easyId3Keys (s : Id3) : List PKey := ((easyId3Registry.map (eiKeysOf s)).flatten).map PKey.str
 
@@ -604,14 +616,14 @@ def eiPlain (e : EIEntry) : Bool :=
 /-- the entries of the proved part: the single-frame ones and `website` (one WOAR frame per URL) -/
 def eiGood (e : EIEntry) : Bool := eiPlain e || e.kind == .website
 
-/-- the keys for which the refinement theorem is stated: every key but those of the three glob
-entries `replaygain_*_gain`, `replaygain_*_peak` (gain and peak share one RVA2 frame) and
-`performer:*` (the handler gets the role as typed; all roles share one TMCL frame).
-Unregistered keys are included (`KeyError`). -/
+/-- the keys for which the refinement theorem is stated: every key but those of the two glob
+entries `replaygain_*_gain`, `replaygain_*_peak` (gain and peak share one RVA2 frame), and a
+`performer:<role>` key only with a role that `str.lower()` leaves alone (the key is matched
+lower-cased, the handler gets the role as typed).  Unregistered keys are included (`KeyError`). -/
 def eiGoodKey (k : PKey) : Bool :=
   match eiEntryOf k with
   | none => true
-  | some (e, _) => eiGood e
+  | some (e, kt) => eiGood e || (e.kind == .performer && pyLower (roleOf kt) == roleOf kt)
 
 /-- the view restricted to the good keys: any other key is answered "outside" -/
 def easyId3ImplG : MapImpl Id3 PKey PVal where
@@ -645,6 +657,7 @@ def frameOK (hk : Text) (f : IFrame) : Bool :=
   | .genre, .text _ l => l.all genrePlain
   | .stamps, .stamps _ _ => true
   | .ufid, .ufid _ _ => true
+  | .tmcl, .tmcl _ p => p.all (fun x => pyLower x.1 == x.1)
   | .woar, .woar u => hk == pWOAR ++ u
   | _, _ => false
 
